@@ -66,6 +66,8 @@ def gen_case(rng):
          "map_as_array": rng.random() < 0.3,           # some EDS files declare the mapping parameter as ARRAY (object type 8)
          "failed_first_save": rng.random() < 0.2,      # the device refused re-mapping once (transient state) before the judged save
          "frame_bit": rng.random() < 0.5}              # a compliant device reports bit 29 ("frame") for 29-bit COB-IDs
+    if not c["enabled"] and rng.random() < 0.2:
+        c["cob"] = 0          # the customary "unused PDO" entry 0x80000000: invalid, CAN-ID 0 - a configuration like any other
     if c["source"] == "device" and len(subs) > 2 and rng.random() < 0.5:
         # the dictionary describes an optional sub-entry that this device does not implement; it says so with one of the
         # abort codes devices use for that
